@@ -15,8 +15,8 @@ wd = vlib.workdir('regen')
 keep = set()
 try:
     items = {i['name']: i for k in mc.NODE_FAMILIES for i in mc.NODE_FAMILIES[k]}
-    items.update({i['name']: i for i in mc.SYNC_FAMILIES + mc.DYN_FAMILIES + mc.LIVE_FAMILIES + mc.TX_FAMILIES})
-    for r in mc.design(tier, wd, None) + mc.design(tier, wd, None, module='MC_Sync') + mc.design(tier, wd, None, module='MC_Dyn') + mc.design(tier, wd, None, module='MC_Live') + mc.design(tier, wd, None, module='MC_Tx'):
+    items.update({i['name']: i for i in mc.SYNC_FAMILIES + mc.DYN_FAMILIES + mc.LIVE_FAMILIES + mc.TX_FAMILIES + mc.SHIFT_FAMILIES})
+    for r in mc.design(tier, wd, None) + mc.design(tier, wd, None, module='MC_Sync') + mc.design(tier, wd, None, module='MC_Dyn') + mc.design(tier, wd, None, module='MC_Live') + mc.design(tier, wd, None, module='MC_Tx') + mc.design(tier, wd, None, module='ShiftInv'):
         print('design', r['name'], r['distinct'], r['wall_s'], 'completed' if r['completed'] else ('violated ' + str(r['violated'])), r.get('from_cache'), flush=True)
     from concurrent.futures import ThreadPoolExecutor
     def one_cover(nm):
@@ -32,7 +32,7 @@ finally:
     shutil.rmtree(wd, ignore_errors=True)
 # drop artefacts of older specification versions
 names = {i['name']: i for k in mc.NODE_FAMILIES for i in mc.NODE_FAMILIES[k]}
-names.update({i['name']: i for i in mc.SYNC_FAMILIES + mc.DYN_FAMILIES + mc.LIVE_FAMILIES + mc.TX_FAMILIES})
+names.update({i['name']: i for i in mc.SYNC_FAMILIES + mc.DYN_FAMILIES + mc.LIVE_FAMILIES + mc.TX_FAMILIES + mc.SHIFT_FAMILIES})
 caps = {}
 for t in chk.COVER:
     for nm in chk.COVER[t] + [n for p in ('C08', 'C16', 'C09', 'C12', 'C14') for d, r, x in chk.SPECIFIC[p][t] if d in ('cover', 'coverpair') for n in x]:
